@@ -10,6 +10,10 @@ def run(ctx):
     behs += life.gen(ctx, dict(base, CB='{"c1"}'), 2 if q else 3, "all histories of the stub alphabet, 2 targets")
     behs += life.sim(ctx, dict(base, Ops="<- AllOps", RS="<- RS_3"), 250 if q else 4000, 10, "random histories, all ops")
     life.replay(ctx, "life", behs)
+    # Pkg override applies to the next lookup only (spec/Pkg.tla)
+    from lib.replay import replay_family
+    g = ctx.tlc("Pkg", "Gen_Pkg.cfg", workers=1, timeout=600, constants={"MaxOps": 4 if q else 6}, tag="Pkg override: all histories")
+    replay_family(ctx, "pkg", ctx.behaviours(g))
     ctx.cov["exhaustive"] = True
     ctx.cov["rule"] = ("every history over {Apply,Return,Returns,When,Cancel,Reset,Call} up to the stated depth on the "
                        "bounded constants plus seeded random length-10 histories over all ops (incl. Origin); each "
